@@ -137,9 +137,8 @@ NoValueBeforeFinal ==
   (Ev.op = "client_result" /\ IsOk) => StOf(o, A.inv) \in Final
 ClientSeesStoredOutcome ==
   Ev.op = "client_result" =>
-     /\ (IsOk /\ StOf(o, A.inv) = "success") => Ev.r.val \in Get(g.returned, A.inv, {})
+     /\ StOf(o, A.inv) = "success" => (IsOk /\ Ev.r.val \in Get(g.returned, A.inv, {}))
      /\ StOf(o, A.inv) = "failed" => (~IsOk /\ Ev.r.err \in Get(g.raised, A.inv, {}))
-     /\ (IsOk => StOf(o, A.inv) # "failed")
 
 \* C06
 KeyOf(i) == Get(g.ckey, i, "")
